@@ -86,6 +86,7 @@ def tree_hash():
                 except OSError:
                     pass
     h.update(" ".join(BASE_FLAGS + repo_flags()).encode())
+    h.update(open(os.path.join(ROOT, "rt", "libstdcxx_model.cpp"), "rb").read())
     return h.hexdigest()[:20]
 
 
@@ -126,6 +127,9 @@ def build_lib(debug=False, log=None):
 
     with ThreadPoolExecutor(max_workers=int(os.environ.get("VERIF_JOBS", "16"))) as ex:
         objs = list(ex.map(one, srcs))
+    model = os.path.join(d + ".tmp", "libstdcxx_model.bc")
+    run([CLANGXX, "-x", "c++"] + BASE_FLAGS + ["-c", "-emit-llvm", os.path.join(ROOT, "rt", "libstdcxx_model.cpp"), "-o", model])
+    objs.append(model)
     run([LLVM_LINK] + objs + ["-o", os.path.join(d + ".tmp", "lib.bc")])
     for o in objs:
         os.unlink(o)
